@@ -28,6 +28,8 @@ func (d *replayDoc) isRace() bool { return strings.HasPrefix(d.ID, "race/") }
 // scheduling shim for package sync and searches the interleavings.
 func (d *replayDoc) usesSched() bool { return len(d.Sched) > 0 && !d.isRace() }
 
+var sfImportRe = regexp.MustCompile(`(?m)^(\s*)"golang.org/x/sync/singleflight"\s*$`)
+
 var syncImportRe = regexp.MustCompile(`(?m)^(\s*)"sync"\s*$`)
 
 // goFilesImporting lists the non-test Go files under root (relative paths) whose import block
@@ -161,6 +163,24 @@ func main() {
 		}
 		reds = append(reds, redirect{syncImportRe, `${1}sync "` + RepoMod + `/zzvsync"`})
 	}
+	if doc.usesSched() {
+		// Memoize's callers synchronise inside golang.org/x/sync/singleflight (module cache). A
+		// dependency module cannot import the shim, so the REAL singleflight source is compiled as
+		// an overlay package of the repo (import of sync redirected) and memoize.go imports that.
+		lm := exec.Command("go", "list", "-m", "-f", "{{.Dir}}", "golang.org/x/sync")
+		lm.Dir = repo
+		lm.Env = append(os.Environ(), "GOFLAGS=-mod=mod", "GOPROXY=off", "GOSUMDB=off", "GOTOOLCHAIN=local", "GOWORK=off")
+		if out, err := lm.Output(); err == nil {
+			if d := strings.TrimSpace(string(out)); d != "" {
+				if src, err := os.ReadFile(filepath.Join(d, "singleflight", "singleflight.go")); err == nil {
+					dst := filepath.Join(tmp, "zzvsf.go")
+					os.WriteFile(dst, syncImportRe.ReplaceAll(src, []byte(`${1}sync "`+RepoMod+`/zzvsync"`)), 0o644)
+					repl[filepath.Join(repo, "zzvsf", "singleflight.go")] = dst
+					reds = append(reds, redirect{sfImportRe, `${1}singleflight "` + RepoMod + `/zzvsf"`})
+				}
+			}
+		}
+	}
 	nred := 0
 	for _, rd := range reds {
 		var targets []string // absolute virtual paths
@@ -171,14 +191,6 @@ func main() {
 		} else {
 			for _, rel := range goFilesImporting(repo, rd.re) {
 				targets = append(targets, filepath.Join(repo, rel))
-			}
-			// harness files of the package under test that build sync objects themselves
-			for virt, real := range repl {
-				if strings.HasPrefix(filepath.Base(virt), "zv_") {
-					if data, e := os.ReadFile(real); e == nil && rd.re.Match(data) {
-						targets = append(targets, virt)
-					}
-				}
 			}
 		}
 		for _, virt := range targets {
